@@ -97,6 +97,8 @@ Proof.
               (fun rs => construct_map rt k rs)))
      | TTuple ts =>
          bind (load rt x) (fun d => bind (itervalues rt d) (fun vs =>
+         if Nat.ltb (length vs) (length ts) then Raise EValue
+         else
          bind (mapM (fun tv => unm rt E (S n) (fst tv) (snd tv)) (zip_trunc ts vs)) (fun rs => Ok (PSeq KTuple rs))))
      | TUnion ts => first_ok rt (map (unm rt E (S n)) (union_stack_u ts)) x
      | TName c | TRef c | TAliasStr _ c =>
@@ -129,6 +131,7 @@ Proof.
     apply le_bind; [apply IH |]; intros; apply le_res_refl.
   - apply le_bind; [apply le_res_refl |]; intros d.
     apply le_bind; [apply le_res_refl |]; intros vs.
+    destruct (Nat.ltb (length vs) (length ts)); [apply le_res_refl |].
     apply le_bind; [apply le_mapM; intros; apply IH |]; intros; apply le_res_refl.
   - apply le_first_ok. apply Forall2_map_le. intros; apply IH.
   - class_case E c IH.
@@ -236,6 +239,24 @@ Lemma forallb2_length {A B} (p : A -> B -> bool) : forall a b, forallb2 p a b = 
 Proof.
   induction a as [| x r IH]; destruct b as [| y t]; cbn; intros H; try discriminate; auto.
   apply andb_prop in H; destruct H as [_ H]. f_equal; auto.
+Qed.
+
+Lemma mapM_length {A B} (f : A -> res B) : forall l ws, mapM f l = Ok ws -> length ws = length l.
+Proof.
+  induction l as [| x r IH]; cbn; intros ws Hm.
+  - inversion Hm; reflexivity.
+  - destruct (f x); cbn in Hm; try discriminate. destruct (mapM f r) eqn:Hr; cbn in Hm; try discriminate.
+    inversion Hm; subst; cbn. f_equal; auto.
+Qed.
+
+Lemma zip_trunc_length {A B} : forall (a : list A) (b : list B), length a = length b -> length (zip_trunc a b) = length a.
+Proof. induction a; destruct b; cbn; intros H; try discriminate; auto. Qed.
+
+Lemma tuple_arity_ok (f : ty * pv -> res pv) ts (l ws : list pv) :
+  length ts = length l -> mapM f (zip_trunc ts l) = Ok ws -> Nat.ltb (length ws) (length ts) = false.
+Proof.
+  intros Hl Hm. apply mapM_length in Hm. rewrite zip_trunc_length in Hm by exact Hl.
+  rewrite Hm. apply Nat.ltb_irrefl.
 Qed.
 
 Lemma mapM_zip_round (f g : ty -> pv -> res pv) (P : ty -> pv -> bool) :
@@ -385,7 +406,8 @@ Proof.
   - destruct (Nat.eqb c c' && Nat.eqb _ _) eqn:Hc; inversion H; subst.
     apply andb_prop in Hc; destruct Hc as [Hc _]. apply Nat.eqb_eq in Hc; subst c'.
     cbn. unfold named_fields; rewrite HE. rewrite combine_map_tokv; reflexivity.
-  - destruct k; try discriminate. cbn. rewrite (td_fields_tokv _ _ H); reflexivity.
+  - destruct k; try discriminate. destruct (td_fields l) as [fs0 |] eqn:Htd; try discriminate.
+    destruct (req_ok cd fs0); inversion H; subst. cbn. rewrite (td_fields_tokv _ _ Htd); reflexivity.
   - destruct (Nat.eqb c c' && _); inversion H; subst; reflexivity.
 Qed.
 
@@ -404,7 +426,9 @@ Proof.
     assert (Hlen : length (map fname (cfields cd)) = length l) by (rewrite map_length; auto).
     pose proof (fill_fields_exact (cfields cd) [] _ (map_fst_combine _ _ Hlen) Hn) as Hf; cbn [app] in Hf; rewrite Hf. cbn.
     rewrite (map_snd_combine _ _ Hlen); reflexivity.
-  - destruct k; try discriminate. rewrite (td_fields_tokv _ _ H); reflexivity.
+  - destruct k; try discriminate. destruct (td_fields l) as [fs0 |] eqn:Htd; try discriminate.
+    destruct (req_ok cd fs0) eqn:Hreq; inversion H; subst.
+    unfold req_ok in Hreq. rewrite Hreq. rewrite (td_fields_tokv _ _ Htd); reflexivity.
   - destruct (Nat.eqb c c' && _) eqn:Hc; inversion H; subst.
     apply andb_prop in Hc; destruct Hc as [Hc Hl]. apply Nat.eqb_eq in Hc; subst c'.
     apply list_eqb_nat_eq in Hl.
@@ -651,6 +675,7 @@ Proof.
       destruct (mapM _ (zip_trunc ts l)) as [ws | | |] eqn:Hws in Hm; cbn [bind] in Hm; try discriminate.
       inversion Hm; subst w; clear Hm.
       cbn [unm load is_scalar bind itervalues].
+      rewrite (tuple_arity_ok _ ts l ws (forallb2_length _ _ _ Hv) Hws).
       rewrite (mapM_zip_round (mar rt E n) (unm rt E n) (ok3 n) IH ts l ws); [reflexivity | | exact Hws].
       apply forallb2_and3; assumption.
     + (* union *)
@@ -846,6 +871,21 @@ Proof. induction l as [| [a b] l IH]; cbn; auto. rewrite IH; reflexivity. Qed.
 Lemma list_eqb_nat_refl : forall a, list_eqb Nat.eqb a a = true.
 Proof. induction a; cbn; auto. rewrite Nat.eqb_refl; auto. Qed.
 
+Lemma kw_lookup_names f : forall (a b : list (nat * pv)), map fst a = map fst b ->
+  (kw_lookup f a = None <-> kw_lookup f b = None).
+Proof.
+  induction a as [| [g v] a IH]; destruct b as [| [g' v'] b]; cbn; intros H; try discriminate; [tauto |].
+  inversion H; subst. destruct (Nat.eqb f g'); [split; discriminate | apply IH; assumption].
+Qed.
+
+Lemma has_kw_names f (a b : list (nat * pv)) : map fst a = map fst b -> has_kw f a = has_kw f b.
+Proof.
+  intros H. unfold has_kw. pose proof (kw_lookup_names f a b H) as [H1 H2].
+  destruct (kw_lookup f a), (kw_lookup f b); auto.
+  - specialize (H2 eq_refl); discriminate.
+  - specialize (H1 eq_refl); discriminate.
+Qed.
+
 Lemma class_rebuild c cd v fs fs' :
   class_fields c cd v = Some fs -> map fst fs' = map fst fs -> NoDup (map fst fs) ->
   exists v', construct_class c cd fs' = Ok v' /\ class_fields c cd v' = Some fs'.
@@ -868,7 +908,14 @@ Proof.
     assert (Hl2 : length fs' = length (cfields cd)).
     { rewrite <- (map_length fst fs'), Hn, map_length; reflexivity. }
     rewrite Hl2, Nat.eqb_refl. cbn. rewrite <- Hn, combine_fst_snd. reflexivity.
-  - destruct k; try discriminate. exists (PDict KDict (map tokv fs')); split; [reflexivity |]. cbn. apply td_fields_of_tokv.
+  - destruct k; try discriminate. destruct (td_fields l) as [fs0 |] eqn:Htd; try discriminate.
+    destruct (req_ok cd fs0) eqn:Hreq; inversion H; subst.
+    assert (Hreq' : req_ok cd fs' = true).
+    { unfold req_ok in *. rewrite forallb_forall in Hreq. apply forallb_forall. intros fd Hin.
+      rewrite (has_kw_names (fname fd) fs' fs Hn). apply Hreq; exact Hin. }
+    exists (PDict KDict (map tokv fs')); split.
+    + unfold req_ok in Hreq'. rewrite Hreq'. reflexivity.
+    + cbn. rewrite td_fields_of_tokv, Hreq'. reflexivity.
   - destruct (Nat.eqb c c' && _) eqn:Hc; inversion H; subst.
     apply andb_prop in Hc; destruct Hc as [Hc Hl]. apply list_eqb_nat_eq in Hl.
     assert (Hl' : map fst fs' = map fname (cfields cd)) by congruence.
@@ -997,7 +1044,8 @@ Proof.
     inversion Hm; subst m; clear Hm.
     destruct (mapM_zip_fix (mar rt E n) (unm rt E n) (fix_ok rt lv E n) IH ts l ws Hv Hws) as [l' [Hu Hm']].
     exists (PSeq KTuple l'). split.
-    + cbn [unm load is_scalar bind itervalues]. rewrite Hu. reflexivity.
+    + cbn [unm load is_scalar bind itervalues].
+      rewrite (tuple_arity_ok _ ts l ws (forallb2_length _ _ _ Hv) Hws). rewrite Hu. reflexivity.
     + cbn [mar itervalues bind]. rewrite Hm'. reflexivity.
   - (* union: the local fixpoint is checked by evaluation *)
     cbn [fix_ok] in Hv. rewrite Hm in Hv.
